@@ -445,10 +445,53 @@ impl PairRun {
     /// one round: evolve operands, then check many view pairs
     pub fn round(&mut self, ev: &mut Ev, pairs: usize) -> bool {
         let prop = self.prop.clone();
-        for i in 0..4 {
-            let n = (3 + self.h.g.rng.below(25)).min(self.evolve_max.max(1));
-            if !self.evolve(ev, i, n) {
-                return false;
+        if self.fast {
+            // Miri mode: build the four operands directly (no per-step oracles): random key subsets,
+            // a few value-less leftovers, shared keys between the operands
+            let mut shared: Vec<EP> = Vec::new();
+            for _ in 0..4 {
+                shared.push(self.h.g.random_uni());
+            }
+            for i in 0..4 {
+                let slot = self.sides[i].slot;
+                let is_set = self.sides[i].is_set;
+                let n = 2 + self.h.g.rng.below(7);
+                let mut m = Model::new();
+                let mut list: Vec<Item> = Vec::new();
+                for j in 0..n {
+                    let k = if j < 2 { shared[self.h.g.rng.below(4)] } else { self.h.g.random_uni() };
+                    let k = self.h.g.host(k);
+                    let t = if is_set { 0 } else { self.h.g.t() };
+                    list.push((k, t));
+                    m.insert(k, t);
+                }
+                let r = {
+                    let w = &mut self.h.w;
+                    guarded(|| {
+                        w.apply(slot, &Op::Replace(ReplaceHow::InsertList(list.clone())));
+                    })
+                };
+                if r.is_err() {
+                    ev.inconclusive("operand construction panicked (owned by C20)");
+                    return false;
+                }
+                // one value-less leftover now and then
+                if self.h.g.rng.chance(1, 2) {
+                    if let Some(k) = self.h.g.resident(&m) {
+                        let w = &mut self.h.w;
+                        let _ = guarded(|| w.apply(slot, &Op::RemoveKeepTree(k)));
+                        m.remove(k);
+                    }
+                }
+                self.sides[i].m = m;
+                self.sides[i].canonical = false;
+            }
+        } else {
+            for i in 0..4 {
+                let n = (3 + self.h.g.rng.below(25)).min(self.evolve_max.max(1));
+                if !self.evolve(ev, i, n) {
+                    return false;
+                }
             }
         }
         // make the two maps share keys now and then (copy some entries across)
@@ -486,7 +529,7 @@ impl PairRun {
             } else {
                 let ma = self.sides[ia].m.clone();
                 let mb = self.sides[ib].m.clone();
-                let mut pa = self.h.g.view_prog(&ma);
+                let mut pa = if self.fast && self.h.g.rng.chance(1, 2) { ViewProg::default() } else { self.h.g.view_prog(&ma) };
                 // bias the second root towards relatives of the first (equal, nested, sibling)
                 let mut pb = match self.h.g.rng.below(4) {
                     0 => pa.clone(),
@@ -496,7 +539,7 @@ impl PairRun {
                 if self.h.g.rng.chance(1, 6) {
                     pa = ViewProg::default();
                 }
-                if self.h.g.rng.chance(1, 6) {
+                if self.h.g.rng.chance(1, 6) || (self.fast && self.h.g.rng.chance(1, 2)) {
                     pb = ViewProg::default();
                 }
                 if !self.check_pair(ev, op, ia, &pa, ib, &pb, None) {
